@@ -983,6 +983,36 @@ pub fn gen_flash_faults(seed: u64, thorough: bool, o: &mut Out) -> Vec<String> {
             q.push("dump".into());
             o.stat(&format!("fault-site-{}", site));
         }
+        // bounded sequences of failures: up to 3 faulted fragments per session, and a second (and third) failure on the
+        // redelivery of the same fragment before it finally goes through
+        let mut all: Vec<(usize, usize)> = vec![];
+        for (j, v) in sites.iter().enumerate().skip(1) {
+            if s.ops[j] != "check" && !v.is_empty() && !v.contains(&"finish") {
+                all.push((j, v.len()));
+            }
+        }
+        for _ in 0..(if thorough { 12 } else { 3 }) {
+            if all.is_empty() {
+                break;
+            }
+            let mut chosen = all.clone();
+            rng.shuffle(&mut chosen);
+            chosen.truncate(rng.range(1, 3) as usize);
+            q.extend(s.head());
+            q.push("variant C18 fault-site=sequence".into());
+            for (jj, op) in s.ops.iter().enumerate() {
+                if let Some((_, nops)) = chosen.iter().find(|(j, _)| *j == jj) {
+                    for _ in 0..rng.range(1, 3) {
+                        q.push(format!("fault {}", rng.below(*nops as u64)));
+                        q.push(op.clone()); // fails (or not, if the redelivery needs fewer operations)
+                        q.push("skipbase 0".into());
+                    }
+                }
+                q.push(op.clone());
+            }
+            q.push("dump".into());
+            o.stat("fault-sequences");
+        }
     }
     q
 }
